@@ -1315,6 +1315,10 @@ class ChoicePayloadDecoder(ConstructedPayloadDecoderBase):
             if not isTagged or component is eoo.endOfOctets:
                 break
 
+        if not len(asn1Object):
+            raise error.PyAsn1Error(
+                'No alternative inside CHOICE %s' % (tagSet,))
+
         yield asn1Object
 
 
